@@ -104,8 +104,8 @@ _E1_BUDGET = {  # (batches, examples per batch) for quick / thorough
     "C04": ((64, 400), (640, 600)),
     "C05": ((64, 540), (640, 700)),
     "C08": ((64, 100), (640, 200)),
-    "C09": ((64, 210), (640, 300)),
-    "C10": ((64, 250), (640, 500)),
+    "C09": ((64, 300), (640, 400)),
+    "C10": ((64, 400), (640, 600)),
 }
 for _pid, (_title, _tech) in _E1.items():
     PROPS[_pid] = {
@@ -142,7 +142,7 @@ for _pid, (_title, _tech) in _E5.items():
     PROPS[_pid] = {
         "id": _pid,
         "engine": e5_render,
-        "quick": _budget(64, 500, 75),
+        "quick": _budget(64, 650, 75),
         "thorough": _budget(960, 1500, 1500),
         "technique": "deterministic simulation: " + _tech,
         "level_text": _title + ": the only way to run layout and rendering here is against a "
